@@ -323,7 +323,7 @@ def real_thresholds(ctx, big):
         loose = [cont.add_object(b'loose-%d' % i) for i in range(30)]
         for i, key in enumerate(loose):
             model[key] = b'loose-%d' % i
-        absent = [absent_key('sha256', i) for i in range(7500)]
+        absent = [absent_key('sha256', i) for i in range(9700)]
         listing = list(cont.list_all_objects())
         if len(listing) != len(set(listing)) or set(listing) != set(model):
             raise Violation(PROP, 'real:listing-paging', f'list_all_objects over 2100 rows returned {len(listing)} keys ({len(set(listing))} distinct), expected {len(model)}')
@@ -342,6 +342,24 @@ def real_thresholds(ctx, big):
             if len(metas) != size or len({k for k, _ in metas}) != size:
                 raise Violation(PROP, 'real:meta', f'get_objects_meta with {size} keys yields {len(metas)} entries')
             ctx.stats.record(True, ['real', size], {'real_thresholds_request': size})
+        # more than 9500 keys that are found nowhere (second, "final try" index look-up takes the full-scan strategy too)
+        for n_absent in (9499, 9500, 9501, 9600):
+            present = sorted(model)[:40]
+            request = present + absent[:n_absent]
+            metas = list(cont.get_objects_meta(request, skip_if_missing=False))
+            if len(metas) != len(request) or len({k for k, _ in metas}) != len(request):
+                raise Violation(PROP, 'real:meta-many-missing', f'get_objects_meta with 40 stored + {n_absent} missing keys yields {len(metas)} entries for {len(request)} distinct keys')
+            seen = []
+            with cont.get_objects_stream_and_meta(request, skip_if_missing=True) as triplets:
+                for key, stream, _ in triplets:
+                    seen.append(key)
+                    if stream.read() != model[key]:
+                        raise Violation(PROP, 'real:stream-many-missing', f'wrong bytes for {key[:10]}')
+            if sorted(seen) != sorted(present):
+                raise Violation(PROP, 'real:stream-many-missing', f'get_objects_stream_and_meta with 40 stored + {n_absent} missing keys yields {len(seen)} streams ({len(set(seen))} distinct)')
+            if cont.has_objects(request) != [True] * 40 + [False] * n_absent:
+                raise Violation(PROP, 'real:has-many-missing', f'has_objects wrong with {n_absent} missing keys')
+            ctx.stats.record(True, ['real-missing', n_absent], {'real_thresholds_missing_keys': n_absent})
         # no_holes listing of known keys pages by 1000 rows
         before = RawState(path)
         again = [datas[0], datas[999], datas[1000], datas[1001], datas[1999], datas[2000], datas[2099], b'brand new']
